@@ -60,6 +60,11 @@ def build_menu(mk):
     inplace('delitem slice [0:1]', lambda r, e: r.__delitem__(slice(0, 1)))
     inplace('clear', lambda r, e: r.clear())
     both('sort', lambda r, e: (r.sort(), r)[1], None)
+    # an edit followed by sort(): the list-side callable performs only the edit (it decides whether a plain list would raise);
+    # the result must be the edited multiset in value order
+    both('setitem(0,new) then sort', lambda r, e: (r.__setitem__(0, e[0]), r.sort(), r)[2], ('sortedit', lambda l, e: (l.__setitem__(0, e[0]), l)[1]))
+    both('setitem slice [0:1]=[new] then sort', lambda r, e: (r.__setitem__(slice(0, 1), [e[0]]), r.sort(), r)[2], ('sortedit', lambda l, e: (l.__setitem__(slice(0, 1), [e[0]]), l)[1]))
+    both('append(new) then sort', lambda r, e: (r.append(e[0]), r.sort(), r)[2], ('sortedit', lambda l, e: l + [e[0]]))
     both('copy', lambda r, e: r.copy(), lambda l, e: l.copy())
     both('AnnealResults(list)', lambda r, e: AnnealResults(list(r)), lambda l, e: list(l))
     both('AnnealResults(generator)', lambda r, e: AnnealResults(x for x in r), lambda l, e: list(l))
@@ -73,7 +78,7 @@ def build_menu(mk):
     return M
 
 
-NMENU = 51
+NMENU = 54
 
 
 def make_history(ctx, start, first, length, big=0):
@@ -103,6 +108,12 @@ def make_history(ctx, start, first, length, big=0):
             e = (mk(), mk())
             list_raises = None
             exp = None
+            sortedit = isinstance(f_ls, tuple) and f_ls[0] == 'sortedit'
+            if sortedit:
+                try:
+                    exp = f_ls[1](list(shadow), e)
+                except (IndexError, ValueError) as ex:
+                    list_raises = type(ex).__name__
             if callable(f_ls):
                 try:
                     exp = f_ls(list(shadow), e)
@@ -126,8 +137,9 @@ def make_history(ctx, start, first, length, big=0):
             if callable(f_ls):
                 shadow = exp
                 same_objs = True
-            elif f_ls is None:       # sort: same multiset, ordered
+            elif f_ls is None or sortedit:       # sort (possibly after an edit): same multiset as the edited list, ordered
                 same_objs = None
+                if sortedit: shadow = exp
             else:
                 same_objs = f_ls
             cur = new
